@@ -31,11 +31,15 @@ def main():
     ap.add_argument("-k", default="")
     ap.add_argument("--checks", default="")
     ap.add_argument("--list", action="store_true")
+    ap.add_argument("--neutral", action="store_true", help="run the property-preserving refactorings: every check must stay quiet")
     ap.add_argument("--scale", default="1")
     ap.add_argument("--force-checks", default="", help="run these checks against the selected mutants regardless of the table")
     args = ap.parse_args()
     rows = []
-    for name, file, old, new, checks in M:
+    table = M
+    if args.neutral:
+        table = globals().get("NEUTRAL", [])
+    for name, file, old, new, checks in table:
         if args.k and args.k not in name:
             continue
         if args.checks:
@@ -65,6 +69,8 @@ def main():
                 viol = [l for l in r.stdout.splitlines() if l.startswith("VIOLATION")]
                 buckets = [l.strip() for l in r.stdout.splitlines() if l.strip().startswith("bucket=")]
                 status = {0: "MISSED", 1: "caught", 2: "HARNESS-ERROR"}.get(r.returncode, str(r.returncode))
+                if args.neutral:
+                    status = {0: "quiet", 1: "FALSE-ALARM", 2: "HARNESS-ERROR"}.get(r.returncode, str(r.returncode))
                 print(f"MUTANT {name:45s} {c}: {status} ({len(viol)} buckets, {time.time() - t0:.0f}s) {buckets[:2]}")
                 if r.returncode == 2:
                     print(r.stdout[-1500:])
@@ -74,8 +80,9 @@ def main():
             shutil.rmtree(tmp, ignore_errors=True)
             # (evidence / replays of scratch runs go to .work/scratch-out, see runner._out_root)
     if not args.list:
-        missed = [r for r in rows if r[2] != "caught"]
-        print(f"\n{len(rows) - len(missed)}/{len(rows)} caught; not caught: {missed}")
+        good = "quiet" if args.neutral else "caught"
+        missed = [r for r in rows if r[2] != good]
+        print(f"\n{len(rows) - len(missed)}/{len(rows)} {good}; others: {missed}")
 
 
 if __name__ == "__main__":
